@@ -39,11 +39,13 @@ def collect(prog, alias):
                 val = accept.apply_alias(sy.name(an.terms.rvalue(st["rv"])), alias)
                 # the stored collection (inside Some{..}): guards on it (`!signal.is_empty()`) decide whether the slot is filled
                 inner_val = None
+                inner_term = None
                 rvt = strip(an.terms.rvalue(st["rv"]))
                 if rvt[0] == "aggr" and rvt[1].endswith("Option::Some") and rvt[2]:
                     inner_val = sy.name(rvt[2][0])
+                    inner_term = rvt[2][0]
                 guards = sorted(accept.apply_alias(g.replace(inner_val, "SIGNAL") if inner_val else g, alias)
-                                for g in store_guards(an, sy, bi, inner_val))
+                                for g in store_guards(an, sy, bi, inner_val, inner_term))
                 out["stores"].append({"array_type": arr_ty(body.locals[l]["ty"]), "index": idx, "value": val, "slot_guards": guards})
     out["stores"].sort(key=lambda s: s["array_type"])
     # grouping of chunks
@@ -82,7 +84,7 @@ def arr_ty(ty):
     return "array%dd" % d
 
 
-def store_guards(an, sy, bb, stored=None):
+def store_guards(an, sy, bb, stored=None, stored_term=None):
     """boolean atoms dominating a store that mention the stored-to array (the duplicate guard) or the stored
     collection itself (the non-empty guard)"""
     out = []
@@ -91,10 +93,17 @@ def store_guards(an, sy, bb, stored=None):
     ats = []
     for (d, rel, vals) in an.atoms_at(bb):
         ats += sy.atoms(d, rel, vals)
+    nonempty = None
+    if stored_term is not None:
+        er = sy.emptiness_rel(stored_term, False)
+        if er:
+            nonempty = atom_str(er[0])
     for a in (accept.simplify(ats, sy.sym_box) or []):
         s = atom_str(a)
         if _re.search(r"var<\[.*\]>\[", s) or (stored and stored in s):
             out.append(s)
+        elif nonempty is not None and s == nonempty:
+            out.append("pred is_empty(%s) False" % stored)          # the stored collection is not empty, as a length relation
     return out
 
 
